@@ -33,6 +33,7 @@ type fn struct {
 	unbal    []string
 	callHeld []callSite
 	access   []fieldAccess // uses of a guarded field, with the locks held there
+	waits    []string      // X.Wait() on a field with locks held
 }
 
 // fieldAccess: a use of one of the guarded fields (a selector x.<field>)
@@ -135,6 +136,11 @@ func (w *walker) call(c *ast.CallExpr, h *heldSet, deferred bool) {
 		return
 	}
 	switch sel.Sel.Name {
+	case "Wait":
+		// waiting for other goroutines (a wait group held in a field) with a mutex held: they may need it
+		if fs, ok := sel.X.(*ast.SelectorExpr); ok && !deferred && len(h.locks) > 0 && mutexName(sel.X) == "" {
+			w.f.waits = append(w.f.waits, fmt.Sprintf("%s.Wait() with %s held at %s", fs.Sel.Name, strings.Join(h.locks, ","), w.f.name+" "+w.pos(c)))
+		}
 	case "Lock", "RLock":
 		if m := mutexName(sel.X); m != "" && !deferred {
 			for _, x := range h.locks {
@@ -354,6 +360,7 @@ func analysePkg(dir string) (*pkgFacts, error) {
 						old.unbal = append(old.unbal, f.unbal...)
 						old.callHeld = append(old.callHeld, f.callHeld...)
 						old.access = append(old.access, f.access...)
+						old.waits = append(old.waits, f.waits...)
 						return
 					}
 					pf.fns[name] = f
@@ -600,6 +607,15 @@ func main() {
 			ug := pf.unguarded(g)
 			b.WriteString(fmt.Sprintf("/-- uses of a mutex-guarded field of package %s (%s) outside its mutex -/\ndef %sUnguarded : List String := [%s]\n\n", pkg, strings.Join(fs, ", "), pkg, quoteAll(ug)))
 			summary[pkg+"_unguarded"] = len(ug)
+		}
+		if pkg == "client" || pkg == "server" {
+			var ws []string
+			for _, n := range pf.order {
+				ws = append(ws, pf.fns[n].waits...)
+			}
+			sort.Strings(ws)
+			b.WriteString(fmt.Sprintf("/-- places of package %s that wait for other goroutines (X.Wait() on a field that is not a condition variable's mutex) with a mutex held -/\ndef %sWaitsHolding : List String := [%s]\n\n", pkg, pkg, quoteAll(ws)))
+			summary[pkg+"_waits_holding"] = len(ws)
 		}
 		summary[pkg+"_edges"] = len(es)
 		summary[pkg+"_unbalanced"] = len(unbal)
